@@ -436,6 +436,7 @@ def gen_errors():
             k += 1
             continue
         raise TranslateError("exec_error.rs: unexpected token %s" % inner[k])
+    variants = sorted(variants)         # the SET of variants is what matters; their declaration order carries no meaning
     lines = ["-- GENERATED by tools/translate.py from /repo (do not edit).",
              "-- source: src/errors/exec_error.rs@" + sha(src),
              "namespace Ssl.Gen",
